@@ -130,6 +130,11 @@ def main():
             a = rng.choice([None] + list(range(-n - 1, n + 2)))
             b = rng.choice([None] + list(range(-n - 1, n + 2)))
             ops.append(["slice", a, b])
+            st = rng.choice([-3, -2, -1, 2, 3])
+            a2 = rng.choice([None] + list(range(-n - 1, n + 2)))
+            b2 = rng.choice([None] + list(range(-n - 1, n + 2)))
+            ops.append(["sel", a2, b2, st, list(range(*slice(a2, b2, st).indices(n)))])
+            ops.append(["sel", a2, b2, st, list(range(*slice(a2, b2, st).indices(n)))])
             e = [gen_val(rng, 1, False) for _ in range(rng.randint(0, 2))]
             ops.append(["extr", e])
             ops.append(["extl", e])
@@ -138,6 +143,8 @@ def main():
             f = lambda v: v[op[1]]  # noqa: E731
         elif op[0] == "slice":
             f = lambda v: v[op[1]:op[2]]  # noqa: E731
+        elif op[0] == "sel":
+            f = lambda v: v[op[1]:op[2]:op[3]]  # noqa: E731
         elif op[0] == "key":
             f = lambda v: v[op[1]]  # noqa: E731
         elif op[0] == "extr":
